@@ -7,6 +7,8 @@ mod impl_send;
 #[cfg(feature = "serde")]
 #[cfg_attr(doc_cfg, doc(cfg(feature = "serde")))]
 mod impl_serde;
+#[cfg(brood_verif)]
+mod verif;
 
 pub(crate) mod identifier;
 
